@@ -31,13 +31,19 @@ var (
 // isElementWithoutContent determines if node is empty
 // or only filled with <br> and <hr>.
 func isElementWithoutContent(node *html.Node) bool {
-	brs := dom.GetElementsByTagName(node, "br")
-	hrs := dom.GetElementsByTagName(node, "hr")
+	// Only the children count: a <br> further down says nothing about
+	// what else is in there (e.g. <div><span><img><br></span></div>).
 	childs := dom.Children(node)
+	nBreaks := 0
+	for _, child := range childs {
+		if tagName := dom.TagName(child); tagName == "br" || tagName == "hr" {
+			nBreaks++
+		}
+	}
 
 	return node.Type == html.ElementNode &&
 		strings.TrimSpace(dom.TextContent(node)) == "" &&
-		(len(childs) == 0 || len(childs) == len(brs)+len(hrs))
+		len(childs) == nBreaks
 }
 
 func isByline(node *html.Node, matchString string) bool {
